@@ -9,6 +9,7 @@ package c01
 // the real run and Statement.Vars, after database/sql's conversion, equal its bound values.
 
 import (
+	"context"
 	"database/sql"
 	"database/sql/driver"
 	"errors"
@@ -62,7 +63,8 @@ func (t *FTag) AfterDelete(tx *gorm.DB) error { return errFTag }
 var h19, h19cfg *vdb.Handle
 
 const seed19 = `
-DELETE FROM tags; DELETE FROM others; DELETE FROM s_tags; DELETE FROM u_tags; DELETE FROM f_tags;
+DELETE FROM tags; DELETE FROM others; DELETE FROM s_tags; DELETE FROM u_tags; DELETE FROM f_tags; DELETE FROM c_tags;
+INSERT INTO c_tags(id,tenant,c1,c2,mark,memo) VALUES (1,'acme','a',1,'m@acme','x/acme'),(2,'globex','b',2,'m@globex','y/globex'),(3,'','c',3,'m@','z/');
 INSERT INTO f_tags(id,c1,c2) VALUES (1,'a',1),(2,'b',2);
 INSERT INTO u_tags(id,c1,c2,created_at,updated_at,stamp,seen) VALUES (1,'a',1,5,5000,5000000000,5),(2,'b',2,6,6000,6000000000,6);
 INSERT INTO tags(id,c1,c2,c3,c8) VALUES (3,'x',1,1.5,0),(7,'y',2,2.5,1),(9,'z',3,3.5,0);
@@ -83,16 +85,19 @@ type Other struct {
 	C9    string
 }
 
-func open19(dry bool) *vdb.Handle {
+func open19(dry bool, plugin ...func(db *gorm.DB)) *vdb.Handle {
 	h, err := vdb.Open(vdb.Options{Config: gorm.Config{DryRun: false}})
 	if err != nil {
 		panic(err)
 	}
-	if err := h.DB.AutoMigrate(&Tag{}, &Other{}, &STag{}, &UTag{}, &FTag{}); err != nil {
+	if err := h.DB.AutoMigrate(&Tag{}, &Other{}, &STag{}, &UTag{}, &FTag{}, &CTag{}); err != nil {
 		panic(err)
 	}
 	if _, err := h.SQL.Exec(seed19); err != nil {
 		panic(err)
+	}
+	for _, f := range plugin {
+		f(h.DB)
 	}
 	if dry {
 		h.DB.Config.DryRun = true
@@ -104,6 +109,8 @@ func open19(dry bool) *vdb.Handle {
 func init19(c *core.Ctx) {
 	h19 = open19(false)
 	h19cfg = open19(true)
+	h19p = open19(false, registerPrebuilt19)
+	h19pcfg = open19(true, registerPrebuilt19)
 }
 
 var realCols = []string{"c1", "c2", "c3", "c4", "c5", "c6", "c7", "c8", "c9"}
@@ -143,19 +150,61 @@ func shapeOfSQL(q string) string {
 
 type op19 func(db *gorm.DB) (out outcome, desc string)
 
+// isRowOnly19: the finisher hands back no handle (Row, Rows): the statement is read from the chain value it was called on.
+func isRowOnly19(what string) bool {
+	return strings.HasSuffix(what, "Row") || strings.HasSuffix(what, "Rows") || strings.HasSuffix(what, "RowValuer")
+}
+
+// renderVars19 is renderVars, except that a serializer's deferred value (it carries the record and the context it
+// was taken under, which print as addresses) is rendered as what it will hand to the driver.
+func renderVars19(vars []interface{}) []string {
+	out := renderVars(vars)
+	for i, v := range vars {
+		if v != nil && strings.HasSuffix(reflect.TypeOf(v).String(), "schema.serializer") {
+			cv, err := convert(v)
+			out[i] = fmt.Sprintf("serializer(%#v, %v)", cv, err)
+		}
+	}
+	return out
+}
+
+// diffVars19 compares the values two dry runs of one operation bind, as the driver would receive them.
+func diffVars19(a, b []interface{}) string {
+	if len(a) != len(b) {
+		return fmt.Sprintf("%d values against %d", len(a), len(b))
+	}
+	for i := range a {
+		ca, erra := convert(a[i])
+		cb, errb := convert(b[i])
+		if erra != nil || errb != nil {
+			if (erra == nil) != (errb == nil) {
+				return fmt.Sprintf("value #%d: %#v (%v) against %#v (%v)", i+1, ca, erra, cb, errb)
+			}
+			continue
+		}
+		if !sameValue(ca, cb) {
+			return fmt.Sprintf("value #%d: %#v against %#v", i+1, ca, cb)
+		}
+	}
+	return ""
+}
+
 // compare runs op dry (3 ways) and for real and applies the oracle.
 // splitOp builds the first parts on the receiver and returns the receiver plus a function
 // that applies the rest and the finisher to the handle ToSQL passes in.
 type splitOp func(db *gorm.DB) (recv *gorm.DB, rest func(tx *gorm.DB) outcome)
 
-func compare19(c *core.Ctx, mk func() op19, mkSplit splitOp, what string) {
+func compare19(c *core.Ctx, m mode19, mk func() op19, mkSplit splitOp, what string) {
 	var problems []string
 	add := func(f string, a ...interface{}) { problems = append(problems, fmt.Sprintf(f, a...)) }
 
 	// (a) session-level DryRun on the very handle that runs it for real afterwards
 	h19.Clock.Reset()
 	mark := h19.Rec.Mark()
-	dry, desc := mk()(h19.DB.Session(&gorm.Session{DryRun: true}))
+	dry, desc := mk()(m.derive(h19.DB).Session(&gorm.Session{DryRun: true}))
+	if m.desc != "" && m.desc != "h" {
+		desc += "   [db = " + m.desc + "]"
+	}
 	dryEvents := h19.Rec.Since(mark)
 	c.Logf("OP %s", desc)
 	if se := stmtEvents(dryEvents); len(se) > 0 {
@@ -165,24 +214,24 @@ func compare19(c *core.Ctx, mk func() op19, mkSplit splitOp, what string) {
 	{
 		h19.Clock.Reset()
 		marks := h19.Rec.Mark()
-		drys, _ := mk()(h19.DB.Scopes(func(d *gorm.DB) *gorm.DB { return d.Session(&gorm.Session{DryRun: true}) }).Session(&gorm.Session{}))
+		drys, _ := mk()(m.derive(h19.DB).Scopes(func(d *gorm.DB) *gorm.DB { return d.Session(&gorm.Session{DryRun: true}) }).Session(&gorm.Session{}))
 		if se := stmtEvents(h19.Rec.Since(marks)); len(se) > 0 {
 			add("Scopes(-> Session{DryRun}): %d statement events reached the driver, first: %s", len(se), se[0].String())
 			if _, err := h19.SQL.Exec(seed19); err != nil {
 				panic(err)
 			}
-		} else if rowOnly := what == "extra/Row" || what == "extra/RawRow" || what == "extra/TableRow"; drys.sql != dry.sql && !dry.noMain && !rowOnly {
+		} else if rowOnly := isRowOnly19(what); drys.sql != dry.sql && !dry.noMain && !rowOnly {
 			// (Row() hands back no handle: what the harness reads is the chain value it called Row() on, which is not the
 			// instance that executed when a scope handed back a session - nothing is exposed, nothing to compare)
 			add("DryRun through a scope that returns Session{DryRun} exposes a different statement:\n  scope  : %s\n  session: %s", drys.sql, dry.sql)
-		} else if a, b := strings.Join(renderVars(drys.vars), ", "), strings.Join(renderVars(dry.vars), ", "); a != b && !dry.noMain && !rowOnly {
+		} else if a, b := strings.Join(renderVars19(drys.vars), ", "), strings.Join(renderVars19(dry.vars), ", "); a != b && !dry.noMain && !rowOnly {
 			add("DryRun through a scope that returns Session{DryRun} exposes other bound values:\n  scope  : [%s]\n  session: [%s]", a, b)
 		}
 	}
 	// (b) config-level DryRun
 	h19cfg.Clock.Reset()
 	markc := h19cfg.Rec.Mark()
-	dryc, _ := mk()(h19cfg.DB.Session(&gorm.Session{}))
+	dryc, _ := mk()(m.derive(h19cfg.DB.Session(&gorm.Session{})))
 	if se := stmtEvents(h19cfg.Rec.Since(markc)); len(se) > 0 {
 		add("Config.DryRun: %d statement events reached the driver, first: %s", len(se), se[0].String())
 	}
@@ -191,7 +240,7 @@ func compare19(c *core.Ctx, mk func() op19, mkSplit splitOp, what string) {
 	markt := h19.Rec.Mark()
 	var tosqlVars []interface{}
 	var tosqlSQL string
-	explained := h19.DB.ToSQL(func(tx *gorm.DB) *gorm.DB {
+	explained := m.derive(h19.DB).ToSQL(func(tx *gorm.DB) *gorm.DB {
 		o, _ := mk()(tx)
 		tosqlSQL, tosqlVars = o.sql, o.vars
 		return o.res
@@ -201,7 +250,7 @@ func compare19(c *core.Ctx, mk func() op19, mkSplit splitOp, what string) {
 		h19.Clock.Reset()
 		marks := h19.Rec.Mark()
 		var splitSQL string
-		recv, rest := mkSplit(h19.DB.Session(&gorm.Session{}))
+		recv, rest := mkSplit(m.derive(h19.DB).Session(&gorm.Session{}))
 		explainedSplit := recv.ToSQL(func(tx *gorm.DB) *gorm.DB {
 			o := rest(tx)
 			splitSQL = o.sql
@@ -224,7 +273,7 @@ func compare19(c *core.Ctx, mk func() op19, mkSplit splitOp, what string) {
 		h19.Clock.Reset()
 		markd := h19.Rec.Mark()
 		var sqlD string
-		h19.DB.Session(&gorm.Session{DryRun: true}).ToSQL(func(tx *gorm.DB) *gorm.DB {
+		m.derive(h19.DB).Session(&gorm.Session{DryRun: true}).ToSQL(func(tx *gorm.DB) *gorm.DB {
 			o, _ := mk()(tx)
 			sqlD = o.sql
 			return o.res
@@ -235,7 +284,7 @@ func compare19(c *core.Ctx, mk func() op19, mkSplit splitOp, what string) {
 		h19cfg.Clock.Reset()
 		markd = h19cfg.Rec.Mark()
 		var sqlC string
-		h19cfg.DB.ToSQL(func(tx *gorm.DB) *gorm.DB {
+		m.derive(h19cfg.DB).ToSQL(func(tx *gorm.DB) *gorm.DB {
 			o, _ := mk()(tx)
 			sqlC = o.sql
 			return o.res
@@ -250,7 +299,7 @@ func compare19(c *core.Ctx, mk func() op19, mkSplit splitOp, what string) {
 	// (d) for real
 	h19.Clock.Reset()
 	markr := h19.Rec.Mark()
-	realOut, _ := mk()(h19.DB.Session(&gorm.Session{}))
+	realOut, _ := mk()(m.derive(h19.DB).Session(&gorm.Session{}))
 	realEvents := stmtEvents(h19.Rec.Since(markr))
 	if _, err := h19.SQL.Exec(seed19); err != nil {
 		panic(err)
@@ -259,10 +308,14 @@ func compare19(c *core.Ctx, mk func() op19, mkSplit splitOp, what string) {
 	c.Inc("op_" + what)
 	if dry.sql != dryc.sql {
 		add("Session{DryRun} and Config.DryRun expose different SQL:\n  %s\n  %s", dry.sql, dryc.sql)
+	} else if d := diffVars19(dryc.vars, dry.vars); d != "" && !dry.noMain {
+		add("Config.DryRun binds other values than Session{DryRun} for the same statement: %s", d)
 	}
 	if dry.sql != tosqlSQL {
 		add("ToSQL statement differs from Session{DryRun}:\n  %s\n  %s", tosqlSQL, dry.sql)
-	} else if want := h19.DB.Dialector.Explain(dry.sql, dry.vars...); dry.err == nil && explained != want && len(tosqlVars) == len(dry.vars) {
+	} else if d := diffVars19(tosqlVars, dry.vars); d != "" && !dry.noMain {
+		add("ToSQL binds other values than Session{DryRun} for the same statement: %s\n  ToSQL returned: %s", d, explained)
+	} else if want := h19.DB.Dialector.Explain(dry.sql, dry.vars...); dry.err == nil && !dry.noMain && explained != want && len(tosqlVars) == len(dry.vars) {
 		add("ToSQL string %q is not Explain(SQL, Vars) = %q", explained, want)
 	}
 	if dry.noMain {
@@ -277,10 +330,30 @@ func compare19(c *core.Ctx, mk func() op19, mkSplit splitOp, what string) {
 		if dry.mainLast {
 			ev = realEvents[len(realEvents)-1]
 		}
-		if ev.Query != dry.sql {
+		textOnly := false
+		if m.prep && ev.Kind == recdrv.KPrepare {
+			// a handle in PrepareStmt mode prepares the statement (once per text) and binds the values to the
+			// prepared statement: the values arrive with the execution that follows the prepare (none follows when
+			// the database rejects the text)
+			c.Inc("real_prepared_first")
+			textOnly = true
+			for _, e := range realEvents[1:] {
+				if e.Kind != recdrv.KPrepare && !dry.mainLast {
+					ev, textOnly = e, false
+					break
+				}
+			}
+		}
+		if textOnly {
+			if ev.Query != dry.sql {
+				add("dry-run SQL differs from the statement prepared for real:\n  dry : %s\n  real: %s", dry.sql, ev.Query)
+			}
+		} else if ev.Query != dry.sql {
 			add("dry-run SQL differs from the first statement sent for real:\n  dry : %s\n  real: %s", dry.sql, ev.Query)
 		}
-		if len(ev.Args) != len(dry.vars) {
+		if textOnly {
+			c.Inc("real_prepare_only_text_compared")
+		} else if len(ev.Args) != len(dry.vars) {
 			add("dry run exposes %d bound values, the driver received %d", len(dry.vars), len(ev.Args))
 		} else {
 			for i, v := range dry.vars {
@@ -295,14 +368,22 @@ func compare19(c *core.Ctx, mk func() op19, mkSplit splitOp, what string) {
 		}
 	}
 	if len(problems) > 0 {
-		c.Violation(what, map[string]interface{}{"chain": desc, "problems": problems, "dry_sql": dry.sql, "dry_vars": renderVars(dry.vars)})
+		c.Violation(what, map[string]interface{}{"chain": desc, "problems": problems, "dry_sql": dry.sql, "dry_vars": renderVars19(dry.vars)})
 		return
+	}
+	if !(len(realEvents) > 0 && !dry.noMain && dry.sql != "") && !dry.noMain {
+		c.Inc("DEBUGnotcompared_" + what + fmt.Sprintf("_ev%d_sql%v_err%v_rerr%v", len(realEvents), dry.sql != "", dry.err, realOut.err))
 	}
 	if len(realEvents) > 0 && !dry.noMain && dry.sql != "" {
 		c.Shape(what, strings.Fields(dry.sql)[0], len(dry.vars), len(realEvents), shapeOfSQL(dry.sql))
 		c.Inc("compared_with_real_statement")
+		if i := strings.Index(what, "/"); i > 0 {
+			c.Inc("compared_with_real_statement_" + what[:i])
+		} else {
+			c.Inc("compared_with_real_statement_chains")
+		}
 		if c.WantSample() && len(dry.vars) > 2 {
-			c.Sample(map[string]interface{}{"chain": desc, "sql": dry.sql, "vars": renderVars(dry.vars), "driver_events_dry": len(dryEvents), "statements_real": len(realEvents)})
+			c.Sample(map[string]interface{}{"chain": desc, "sql": dry.sql, "vars": renderVars19(dry.vars), "driver_events_dry": len(dryEvents), "statements_real": len(realEvents)})
 		}
 	}
 }
@@ -354,7 +435,7 @@ func run19(c *core.Ctx) {
 				return o
 			}
 		}
-		compare19(c, mk, mkSplit, fin)
+		compare19(c, drawMode(c.R, 2), mk, mkSplit, fin)
 	}
 	// soft-delete model
 	for k := 0; k < 2; k++ {
@@ -414,7 +495,7 @@ func run19(c *core.Ctx) {
 				return outcome{sql: res.Statement.SQL.String(), vars: res.Statement.Vars, err: res.Error, res: res}, "STag: db." + strings.Join(d, ".")
 			}
 		}
-		compare19(c, mk, nil, "soft/"+fin)
+		compare19(c, drawMode(c.R, 2), mk, nil, "soft/"+fin)
 	}
 	// Row() as finisher (it hands out a *sql.Row, the statement stays on the chain value), and a sub-query
 	// handle chained from the operation's own handle that is used by two statements (count, then page)
@@ -546,7 +627,7 @@ func run19(c *core.Ctx) {
 					"sub := db.Model(&Tag{}).Select(id).Where(c2 > ?); db.Where(c1 <> ?).Where(id IN (?), sub).Count; the same chain .Order.Limit.Find"
 			}
 		}
-		compare19(c, mk, nil, "extra/"+fin)
+		compare19(c, drawMode(c.R, 2), mk, nil, "extra/"+fin)
 	}
 	// model with unix-number time tracking
 	{
@@ -583,7 +664,50 @@ func run19(c *core.Ctx) {
 				return outcome{sql: res.Statement.SQL.String(), vars: res.Statement.Vars, err: res.Error, res: res}, "UTag: db." + fin
 			}
 		}
-		compare19(c, mk, nil, "unixtime/"+fin)
+		compare19(c, drawMode(c.R, 2), mk, nil, "unixtime/"+fin)
+	}
+	// statements that depend on the context of the handle (hooks, scopes, gorm.Valuer values and field types, a
+	// serializer): the handle carries a context with a tenant (7 of 8; by WithContext or Session{Context}), or the
+	// operation derives such a handle itself as its first step
+	{
+		seed := c.R.U64()
+		fin := core.Pick(c.R, ctxFins19)
+		m := drawMode(c.R, 7)
+		var inOp context.Context
+		var inOpDesc string
+		if m.ctx != nil && c.R.Chance(1, 4) {
+			t := core.Pick(c.R, tenants19)
+			inOp, inOpDesc = newCtx19(t), fmt.Sprintf(".WithContext(WithValue(Background(), tenant, %q))", t)
+			if c.R.Bool() {
+				// ... from a handle that carries no context, or (else) one that carries another tenant's
+				m.ctx, m.desc = nil, m.descNoCtx
+			}
+		}
+		compare19(c, m, func() op19 { return ctxOp19(fin, seed, inOp, inOpDesc) }, nil, "ctx/"+fin)
+		if m.ctx != nil || inOp != nil {
+			c.Inc("ops_under_a_context_with_a_tenant")
+		}
+	}
+	// operations that reach their executor with the statement text already there
+	if c.R.Chance(2, 3) {
+		seed := c.R.U64()
+		fin := core.Pick(c.R, prebuiltFins19)
+		how := core.Pick(c.R, []string{"Raw", "Plugin"})
+		m := drawMode(c.R, 2)
+		if how == "Plugin" {
+			// the handles whose callback chains carry the statement-writing callback
+			h19, h19p = h19p, h19
+			h19cfg, h19pcfg = h19pcfg, h19cfg
+		}
+		compare19(c, m, func() op19 { return prebuiltOp19(how, fin, seed) }, nil, "prebuilt/"+how+"/"+fin)
+		if how == "Plugin" {
+			h19, h19p = h19p, h19
+			h19cfg, h19pcfg = h19pcfg, h19cfg
+		}
+	} else {
+		seed := c.R.U64()
+		first, second := core.Pick(c.R, reuseFirst19), core.Pick(c.R, reuseSecond19)
+		compare19(c, drawMode(c.R, 2), func() op19 { return reuseOp19(first, second, seed) }, nil, "reuse/"+second)
 	}
 }
 
